@@ -173,7 +173,8 @@ Proof.
        rewrite ?Hp in *; cbn in *;
        try match goal with H : needT (pcof _ ?u) = Some ?b |- _ => pose proof (HexTu _ H) end;
        try match goal with H : needA (pcof _ ?u) = Some ?b |- _ => pose proof (HexAu _ H) end;
-       try (intuition (discriminate || congruence || eauto); fail)).
+       try (intuition (discriminate || congruence || eauto); fail);
+       try (destruct tm; reflexivity)).
   (* F_wakeT *)
   all: try (intros u Hin Htr; gsimpl;
        first [ discriminate | contradiction | congruence
@@ -182,9 +183,8 @@ Proof.
          first [ specialize (HFTt _ eq_refl); congruence
          | exists t; split; [apply HOTt; reflexivity | rewrite (pcof_upd _ _ _ _ _ Hl), Nat.eqb_refl; reflexivity]
          | try (apply In_rem in Hin; destruct Hin as [Hin _]);
-           assert (exists a, mT g = Some a /\ is_Tnotify (pcof ls a) = true) as [a [Ha Hn]]
-             by (apply (HWT u Hin); first [exact Htr | reflexivity | congruence]);
-           first [ congruence
+           edestruct (HWT u Hin) as [a [Ha Hn]]; [first [exact Htr | reflexivity | congruence] | ];
+           first [ congruence | discriminate
            | try (specialize (HOTt eq_refl));
              exists a; rewrite (pcof_upd _ _ _ _ _ Hl); cbn [at_];
              destruct (Nat.eqb_spec a t) as [->|Hne];
@@ -197,11 +197,144 @@ Proof.
          first [ specialize (HFAt _ eq_refl); congruence
          | exists t; split; [apply HOAt; reflexivity | rewrite (pcof_upd _ _ _ _ _ Hl), Nat.eqb_refl; reflexivity]
          | try (apply In_rem in Hin; destruct Hin as [Hin _]);
-           assert (exists a, mA g = Some a /\ is_Anotify (pcof ls a) = true) as [a [Ha Hn]]
-             by (apply (HWA u Hin); first [exact Htr | reflexivity | congruence]);
-           first [ congruence
+           edestruct (HWA u Hin) as [a [Ha Hn]]; [first [exact Htr | reflexivity | congruence] | ];
+           first [ congruence | discriminate
            | try (specialize (HOAt eq_refl));
              exists a; rewrite (pcof_upd _ _ _ _ _ Hl); cbn [at_];
              destruct (Nat.eqb_spec a t) as [->|Hne];
+             [ rewrite Hp in Hn; cbn in Hn; first [discriminate | split; auto; congruence] | split; auto; congruence ] ] ] ]).
+  - (* wait_for time-out: the thread was still in the sleeper list and the mutex was free, so no trigger store is pending *)
+    inversion H; subst b. destruct (triggered g) eqn:Etr; [exfalso|reflexivity].
+    assert (In t (slT g)) as Hin.
+    { apply mem_In. destruct (mem t (slT g)); [reflexivity|]. rewrite andb_false_r in Heqb0. discriminate. }
+    destruct (HWT t Hin eq_refl) as [a [Ha _]]. discriminate.
+  - inversion H; subst b. destruct (activated g) eqn:Etr; [exfalso|reflexivity].
+    assert (In t (slA g)) as Hin.
+    { apply mem_In. destruct (mem t (slA g)); [reflexivity|]. rewrite andb_false_r in Heqb0. discriminate. }
+    destruct (HWA t Hin eq_refl) as [a [Ha _]]. discriminate.
+Qed.
+
+(* ---------- invariant 3: the ghost stamps ---------- *)
+Definition dloc : loc := Loc [] Idle 0 0 0 0.
+Definition locof (ls : list loc) (u : nat) : loc :=
+  match nth_error ls u with Some l => l | None => dloc end.
+Lemma locof_upd ls t l l' u : nth_error ls t = Some l ->
+  locof (upd ls t l') u = if Nat.eqb u t then l' else locof ls u.
+Proof.
+  intros H. unfold locof. destruct (Nat.eqb_spec u t) as [->|Hne].
+  - rewrite (nth_upd_eq _ _ _ _ H). reflexivity.
+  - rewrite nth_upd_ne by auto. reflexivity.
+Qed.
+Lemma locof_at ls t l : nth_error ls t = Some l -> locof ls t = l.
+Proof. intros H. unfold locof. rewrite H. reflexivity. Qed.
+Arguments locof : simpl never.
+
+Definition after_clear (p : pc) : bool :=
+  match p with A_unlockT | A_lockA | A_set => true | _ => false end.
+
+Local Open Scope nat_scope.
+Record Inv3 (a0 : bool) (g : glob) (ls : list loc) : Prop := {
+  S_now : act_stamp g < now g /\ deact_stamp g < now g /\ clear_stamp g < now g /\ trig_stamp g < now g /\
+          rexit_stamp g < now g;
+  S_loc : forall u, sclr (locof ls u) <= clear_stamp g /\ myclr (locof ls u) <= clear_stamp g /\
+                    slp (locof ls u) < now g /\ fslp (locof ls u) <= slp (locof ls u);
+  S_fslp : forall u, is_Wwoken (pcof ls u) || is_Vwoken (pcof ls u) = true -> 0 < fslp (locof ls u);
+  S_myclr : forall u, after_clear (pcof ls u) = true -> 0 < myclr (locof ls u);
+  S_trig : (triggered g = true -> clear_stamp g < trig_stamp g) /\
+           (triggered g = false -> (trig_stamp g = 0 \/ trig_stamp g < clear_stamp g) /\
+                                   (rexit_stamp g = 0 \/ rexit_stamp g < clear_stamp g));
+  S_act : (activated g = true -> deact_stamp g < act_stamp g \/ (act_stamp g = 0 /\ deact_stamp g = 0)) /\
+          (activated g = false -> act_stamp g = 0 \/ act_stamp g < deact_stamp g);
+  S_init : activated g = true -> act_stamp g = 0 -> a0 = true;
+  S_actclear : act_clear g <= clear_stamp g /\ (act_stamp g = 0 -> act_clear g = 0 /\ nact g = 0) /\
+               (0 < act_stamp g -> 0 < act_clear g < act_stamp g /\ 0 < nact g);
+  S_slT : forall u, In u (slT g) -> slp (locof ls u) <= trig_stamp g \/ slp (locof ls u) <= rexit_stamp g ->
+          exists a, mT g = Some a /\ is_Tnotify (pcof ls a) = true;
+  S_slA : forall u, In u (slA g) -> slp (locof ls u) <= act_stamp g ->
+          exists a, mA g = Some a /\ is_Anotify (pcof ls a) = true
+}.
+
+Lemma Inv3_step : forall a0 g ls t c l g' l' es,
+  Inv1 g ls -> Inv2 g ls -> Inv3 a0 g ls -> nth_error ls t = Some l -> tstep t c g l = Some (g', l', es) ->
+  Inv3 a0 g' (upd ls t l').
+Proof.
+  intros a0 g ls t c l g' l' es HI1 HI2 HI Hl Hs.
+  destruct l as [pr p s1 s2 s3 s4].
+  destruct HI1 as [HOT HHT HOA HHA HST HSA].
+  destruct HI2 as [HFT HFA HTM HWT HWA].
+  destruct HI as [HN HL HFS HMC HTR HAC HIN HACL HLT HLA].
+  pose proof (pcof_at _ _ _ Hl) as Hp; cbn in Hp.
+  pose proof (locof_at _ _ _ Hl) as Hlo.
+  pose proof (HL t) as HLt. rewrite Hlo in HLt. cbn in HLt.
+  pose proof (HMC t) as HMCt. rewrite Hlo, Hp in HMCt. cbn in HMCt.
+  step_cases Hs; gsimpl.
+  all: try match goal with o : op |- _ => destruct o; cbn [entry] in * end.
+  all: constructor; gsimpl.
+  (* S_now *)
+  all: try lia.
+  (* S_loc *)
+  all: try (intros u; rewrite (locof_upd _ _ _ _ _ Hl); pose proof (HL u) as HLu;
+            destruct (Nat.eqb_spec u t) as [->|Hne]; gsimpl;
+            try match goal with |- context [Nat.eqb ?x 0] => destruct (Nat.eqb_spec x 0) end; lia).
+  (* S_fslp, S_myclr *)
+  all: try (intros u; rewrite (locof_upd _ _ _ _ _ Hl), (pcof_upd _ _ _ _ _ Hl);
+            pose proof (HFS u) as HFSu; pose proof (HMC u) as HMCu; pose proof (HFS t) as HFSt;
+            rewrite Hlo, Hp in HFSt; cbn in HFSt;
+            destruct (Nat.eqb_spec u t) as [->|Hne]; gsimpl; cbn;
+            try match goal with |- context [Nat.eqb ?x 0] => destruct (Nat.eqb_spec x 0) end;
+            first [ discriminate | assumption | intros; lia | intros; discriminate
+                  | intros; apply HFSt; reflexivity | intros; apply HMCt; reflexivity ]).
+  (* S_trig, S_act, S_actclear *)
+  all: try solve [ try specialize (HMCt eq_refl);
+          destruct HTR as [HTR1 HTR2]; destruct HAC as [HAC1 HAC2]; destruct HACL as [HC1 [HC2 HC3]];
+          repeat split; intros; try discriminate;
+          repeat match goal with
+                 | H : ?x = ?x -> _ |- _ => specialize (H eq_refl)
+                 | H : ?P -> _, H' : ?P |- _ => specialize (H H')
+                 end;
+          try lia ].
+  (* S_init *)
+  all: try solve [ intros; first [ discriminate | lia | apply HIN; first [assumption | reflexivity | lia] ] ].
+  (* S_slT *)
+  all: try (intros u Hin Hst; gsimpl; rewrite (locof_upd _ _ _ _ _ Hl) in Hst;
+       pose proof (HOT t) as HOTt; rewrite Hp in HOTt; cbn in HOTt;
+       first [ contradiction
+       | try (apply In_rem in Hin; destruct Hin as [Hin Hne0]);
+         try (destruct Hin as [Heq|Hin]; [subst u; rewrite Nat.eqb_refl in Hst; gsimpl; exfalso; lia | ]);
+         destruct (Nat.eqb_spec u t) as [->|Hne];
+         [ first [ congruence | pose proof (HST t Hin) as Hw; rewrite Hp in Hw; discriminate ] | ];
+         first [ exists t; split; [apply HOTt; reflexivity | rewrite (pcof_upd _ _ _ _ _ Hl), Nat.eqb_refl; reflexivity]
+         | edestruct (HLT u Hin) as [a [Ha Hn]]; [ first [exact Hst | lia] | ];
+           first [ congruence | discriminate
+           | try (specialize (HOTt eq_refl));
+             exists a; rewrite (pcof_upd _ _ _ _ _ Hl); cbn [at_];
+             destruct (Nat.eqb_spec a t) as [->|Hne2];
+             [ rewrite Hp in Hn; cbn in Hn; first [discriminate | split; auto; congruence] | split; auto; congruence ] ]
+         | edestruct (HWT u Hin) as [a [Ha Hn]]; [ first [assumption | reflexivity] | ];
+           first [ congruence | discriminate
+           | try (specialize (HOTt eq_refl));
+             exists a; rewrite (pcof_upd _ _ _ _ _ Hl); cbn [at_];
+             destruct (Nat.eqb_spec a t) as [->|Hne2];
+             [ rewrite Hp in Hn; cbn in Hn; first [discriminate | split; auto; congruence] | split; auto; congruence ] ] ] ]).
+  (* S_slA *)
+  all: try (intros u Hin Hst; gsimpl; rewrite (locof_upd _ _ _ _ _ Hl) in Hst;
+       pose proof (HOA t) as HOTt; rewrite Hp in HOTt; cbn in HOTt;
+       first [ contradiction
+       | try (apply In_rem in Hin; destruct Hin as [Hin Hne0]);
+         try (destruct Hin as [Heq|Hin]; [subst u; rewrite Nat.eqb_refl in Hst; gsimpl; exfalso; lia | ]);
+         destruct (Nat.eqb_spec u t) as [->|Hne];
+         [ first [ congruence | pose proof (HSA t Hin) as Hw; rewrite Hp in Hw; discriminate ] | ];
+         first [ exists t; split; [apply HOTt; reflexivity | rewrite (pcof_upd _ _ _ _ _ Hl), Nat.eqb_refl; reflexivity]
+         | edestruct (HLA u Hin) as [a [Ha Hn]]; [ first [exact Hst | lia] | ];
+           first [ congruence | discriminate
+           | try (specialize (HOTt eq_refl));
+             exists a; rewrite (pcof_upd _ _ _ _ _ Hl); cbn [at_];
+             destruct (Nat.eqb_spec a t) as [->|Hne2];
+             [ rewrite Hp in Hn; cbn in Hn; first [discriminate | split; auto; congruence] | split; auto; congruence ] ]
+         | edestruct (HWA u Hin) as [a [Ha Hn]]; [ first [assumption | reflexivity] | ];
+           first [ congruence | discriminate
+           | try (specialize (HOTt eq_refl));
+             exists a; rewrite (pcof_upd _ _ _ _ _ Hl); cbn [at_];
+             destruct (Nat.eqb_spec a t) as [->|Hne2];
              [ rewrite Hp in Hn; cbn in Hn; first [discriminate | split; auto; congruence] | split; auto; congruence ] ] ] ]).
   all: idtac "REMAINING". Show. Abort.
